@@ -18,6 +18,20 @@ pub enum OpKind {
     PatchAppend(u64, Option<u64>),
 }
 
+impl OpKind {
+    pub fn name(&self) -> &'static str {
+        match self {
+            OpKind::Get => "get",
+            OpKind::Insert(..) => "insert",
+            OpKind::Delete(..) => "delete",
+            OpKind::Cas(..) => "compare_and_swap",
+            OpKind::Incr(..) => "atomic_increment",
+            OpKind::InsertIfAbsent(..) => "insert_if_absent",
+            OpKind::PatchAppend(..) => "json_patch",
+        }
+    }
+}
+
 #[derive(Clone, Debug, PartialEq, Eq, Hash)]
 pub enum Res {
     Value(Vec<u8>),
